@@ -688,6 +688,20 @@ class Interp:
                            for (root, path) in base.origins)
         for (root, path) in base.origins:
             np_ = path + (attr,)
+            if root.startswith("shallow:"):
+                # field of a shallow copy: the copy's own rebinding if there is one, else (and,
+                # conservatively, also) the very object the original holds in that field
+                own = self.heap.get((root, np_))
+                if own is not None:
+                    out = join(out, own)
+                    origins.add((root, np_))
+                oroot = root[len("shallow:"):]
+                origins.add((oroot, np_))
+                h = self.heap.get((oroot, np_))
+                if h is not None:
+                    out = join(out, h)
+                only_obj = False
+                continue
             origins.add((root, np_))
             if has_obj_cell and not root.startswith("obj:"):
                 continue
@@ -1031,7 +1045,28 @@ class Interp:
             return AV(const={"True": True, "False": False, "None": None}[e.id])
         return AV(ref=FS([("builtin", e.id)]))
 
+    def _sig_has(self, cav, pname):
+        """Does every class `cav` may denote take constructor parameter `pname`?  None if unknown."""
+        names = {r[1] for r in cav.ref if r[0] == "cls" and str(r[1]).startswith("P:")} | \
+                {c for c in cav.cls if str(c).startswith("P:")}
+        ext = {r[1] for r in cav.ref if r[0] == "cls" and str(r[1]).startswith("E:")} | \
+              {c for c in cav.cls if str(c).startswith("E:")}
+        if not names and ext and pname == "random_state" \
+                and all(str(c).split(".")[-1] in EXT_DRAWING_CLASSES for c in ext):
+            # every external estimator of the drawing table takes a `random_state` parameter
+            return True
+        cis = [self.p.classes.get(str(n)[2:]) for n in names]
+        if cis and not ext and all(c is not None for c in cis):
+            has = [pname in self.p.ctor_params(c) for c in cis]
+            if all(has) or not any(has):
+                return has[0]
+        return None
+
     def e_Attribute(self, e, frame):
+        if e.attr == "parameters" and isinstance(e.value, ast.Call) and e.value.args \
+                and isinstance(e.value.func, (ast.Name, ast.Attribute)) \
+                and (e.value.func.id if isinstance(e.value.func, ast.Name) else e.value.func.attr) == "signature":
+            return AV(ref=FS([("sigof", self.eval(e.value.args[0], frame))]))
         # dotted external / module symbol ?
         base = self.eval(e.value, frame)
         for r in base.ref:
@@ -1237,22 +1272,16 @@ class Interp:
         return res.replace(const=NOCONST)
 
     def e_Compare(self, e, frame):
-        # "p" in signature(<project class>).parameters  -> decided from the constructor signature
+        # "p" in signature(<class>).parameters  -> decided from the constructor signature (also when
+        # `signature(<class>).parameters` was bound to a local first)
         if len(e.ops) == 1 and isinstance(e.ops[0], (ast.In, ast.NotIn)) and isinstance(e.left, ast.Constant) \
-                and isinstance(e.left.value, str) and isinstance(e.comparators[0], ast.Attribute) \
-                and e.comparators[0].attr == "parameters" and isinstance(e.comparators[0].value, ast.Call) \
-                and isinstance(e.comparators[0].value.func, (ast.Name, ast.Attribute)) \
-                and (e.comparators[0].value.func.id if isinstance(e.comparators[0].value.func, ast.Name)
-                     else e.comparators[0].value.func.attr) == "signature" and e.comparators[0].value.args:
-            cav = self.eval(e.comparators[0].value.args[0], frame)
-            names = {r[1] for r in cav.ref if r[0] == "cls" and str(r[1]).startswith("P:")} | \
-                    {c for c in cav.cls if str(c).startswith("P:")}
-            cis = [self.p.classes.get(str(n)[2:]) for n in names]
-            if cis and all(c is not None for c in cis):
-                has = [e.left.value in self.p.ctor_params(c) for c in cis]
-                if all(has) or not any(has):
-                    val = has[0]
-                    return AV(const=val if isinstance(e.ops[0], ast.In) else not val)
+                and isinstance(e.left.value, str):
+            rv = self.eval(e.comparators[0], frame)
+            sig = [r[1] for r in rv.ref if r[0] == "sigof"]
+            if sig:
+                has = self._sig_has(sig[0], e.left.value)
+                if has is not None:
+                    return AV(const=has if isinstance(e.ops[0], ast.In) else not has)
         l = self.eval(e.left, frame)
         rs = [self.eval(c, frame) for c in e.comparators]
         res = derived(l, *rs)
@@ -1944,6 +1973,11 @@ class Interp:
             if dotted == "numpy.array" and "copy" in kwargs and kwargs["copy"].const is False:
                 return AV(origins=a0.origins, deps=res.deps, arr=True)
             shallow = dotted == "copy.copy"
+            if shallow and a0.origins and not a0.arr and a0.elts is None and a0.items is None and not a0.rng \
+                    and all(is_visible_root(r) for (r, _) in a0.origins):
+                # shallow copy of an object: a new object whose fields still hold the original's objects
+                return AV(origins=FS(("shallow:" + r, pth) for (r, pth) in a0.origins), deps=a0.deps, cls=a0.cls,
+                          ckw=a0.ckw, nn=True)
             if a0.const is not NOCONST and isinstance(a0.const, (type(None), int, float, str, bool)) \
                     and dotted in ("copy.copy", "copy.deepcopy"):
                 return AV(const=a0.const, deps=a0.deps)
